@@ -227,6 +227,160 @@ async def episode(loop, history, eavesdrop, checkpoints, faults, rnd, port=False
     return out
 
 
+ADDR = __import__("re").compile(r"\d\d:\d{6}")
+REGEX_OF: dict = {}
+
+
+def addr_ids(frame: str) -> set:
+    return set(ADDR.findall(frame[7:36]))
+
+
+def own_views(gwy, own: set) -> dict:
+    """every public view of the systems / zones / devices whose ids are in `own`, canonical JSON text each"""
+    out = {}
+
+    def put(name, fn):
+        try:
+            out[name] = json.dumps(fn(), default=str, sort_keys=True)
+        except Exception as e:  # noqa: BLE001
+            out[name] = "raised " + repr(e).split("(")[0]
+
+    for d in list(gwy.devices):
+        if d.id in own:
+            for a in ("schema", "params", "status"):
+                put(f"{d.id}.{a}", lambda d=d, a=a: getattr(d, a))
+    for tcs in list(gwy.systems):
+        if tcs.id in own:
+            for a in ("schema", "params", "status"):
+                put(f"tcs {tcs.id}.{a}", lambda tcs=tcs, a=a: getattr(tcs, a))
+    return out
+
+
+async def neighbour_episode(loop, timeline, own: set, eavesdrop: bool, schema=None) -> dict:
+    rig = gwrig.Rig(loop, config={"enable_eavesdrop": eavesdrop}, schema=schema)
+    await rig.start()
+    for t, fr in timeline:
+        d = t - loop.time()
+        if d > 0:
+            await asyncio.sleep(d)
+        await rig.feed(fr)
+    await asyncio.sleep(max(0.0, timeline[-1][0] + 1.0 - loop.time()))
+    v = own_views(rig.gwy, own)
+    await rig.stop()
+    return v
+
+
+def neighbours(chk: Check, rnd: random.Random, logs: dict, n: int) -> None:
+    """"Packets that are valid for other systems never stop the gateway from continuing to track the ones it knows": the same
+    own traffic at the same instants, once alone and once with a neighbour's traffic (another log, no device id in common, never
+    addressed to or from our devices) between its packets - every view of our systems, zones and devices must be the same."""
+    names = sorted(logs)
+    done = 0
+    tries = 0
+    while done < n and tries < 20 * n:
+        tries += 1
+        a, b = rnd.sample(names, 2)
+        own_rows = [f for _, f in logs[a]]
+        s0 = rnd.randrange(0, max(1, len(own_rows) - 60))
+        own_rows = own_rows[s0:s0 + rnd.randint(10, 60)]
+        own = set().union(*(addr_ids(f) for f in own_rows)) if own_rows else set()
+        own = {i for i in own if not i.startswith("18:") and i != "63:262142"}
+        ctls = sorted(i for i in own if i.startswith("01:"))
+        schema = None
+        if ctls and tries % 4 == 0:
+            # our controller's periodic announcements in array form (few of the repo's logs hold any): zone configuration in
+            # one or two parts, setpoints, temperatures
+            c = rnd.choice(ctls)
+            nz = rnd.randint(2, 10)
+            cfg = [f"{z:02X}{rnd.choice((0x10, 0x00, 0x13)):02X}{rnd.choice((500, 1000)):04X}{rnd.choice((2500, 3000, 3500)):04X}" for z in range(nz)]
+            cut = rnd.choice((nz, nz, max(1, nz - 1), max(1, nz - 2)))
+            extra = [f" I --- {c} --:------ {c} 000A {6 * cut:03d} " + "".join(cfg[:cut])]
+            if cut < nz:
+                extra.append(f" I --- {c} --:------ {c} 000A {6 * (nz - cut):03d} " + "".join(cfg[cut:]))
+            extra.append(f" I --- {c} --:------ {c} 2309 {3 * nz:03d} " + "".join(f"{z:02X}{rnd.choice((1500, 1900, 2100)):04X}" for z in range(nz)))
+            extra.append(f" I --- {c} --:------ {c} 30C9 {3 * nz:03d} " + "".join(f"{z:02X}{rnd.randint(1400, 2400):04X}" for z in range(nz)))
+            k = rnd.randrange(len(own_rows) + 1)
+            own_rows[k:k] = extra
+            if rnd.random() < 0.7:      # the zones are configured (a known schema), as in an installation that has been running
+                schema = {"main_tcs": c, c: {"zones": {f"{z:02X}": {"class": "radiator_valve"} for z in range(nz)}}}
+        foreign_all = [f for _, f in logs[b]]
+        foreign_ids = set().union(*(addr_ids(f) for f in foreign_all))
+        foreign_ids = {i for i in foreign_ids if not i.startswith("18:") and i != "63:262142"}
+        # a neighbour: no id in common, in the address fields or inside the payloads (000C / 1FC9 carry device ids)
+        if not own or not any(i.startswith("01:") for i in own) or (own & foreign_ids):
+            continue
+        from ramses_tx.address import dev_id_to_hex_id
+
+        own_hex = {dev_id_to_hex_id(i) for i in own}
+        foreign = [f for f in foreign_all if " 18:" not in f[:36] and not any(h in f[46:] for h in own_hex)]
+        if twin_turn := (tries % 2 == 0):
+            # the neighbour is a twin of our own system: the same kit (so the same verbs and codes, arrays included) under other
+            # device ids - in the address fields and inside the payloads - reporting other values
+            b = a + " (twin: other ids, other values)"
+            mp = {}
+            for i in sorted(own):
+                num = (int(i[3:]) + 7001) % 262144
+                while f"{i[:3]}{num:06d}" in own or f"{i[:3]}{num:06d}" in mp.values():
+                    num = (num + 1) % 262144
+                mp[i] = f"{i[:3]}{num:06d}"
+            foreign = []
+            for fr in own_rows:
+                if " 18:" in fr[:36] or fr[37:41] in ("000C", "1FC9", "0418", "10E1", "1FCA"):
+                    continue        # (payloads that name devices: a twin naming *our* devices would be claiming them, not a neighbour)
+                g = fr
+                for i, j in mp.items():
+                    g = g.replace(i, j).replace(dev_id_to_hex_id(i), dev_id_to_hex_id(j))
+                g2 = mutate_fields(rnd, g, REGEX_OF) if rnd.random() < 0.7 else g
+                foreign.append(g2 if not any(h in g2[46:] for h in own_hex) else g)
+        if len(foreign) < 5:
+            continue
+        t = 0.0
+        tl_own = []
+        for fr in own_rows:
+            t += rnd.choice((0.05, 0.3, 1.0, 2.0, 3.1, 30.0))
+            tl_own.append((round(t, 3), fr))
+        k0 = rnd.randrange(0, max(1, len(foreign) - 40))
+        fsel = foreign[k0:k0 + rnd.randint(3, 40)]
+        tl_for = []
+        for fr in fsel:
+            i = rnd.randrange(len(tl_own))
+            # right after an own packet (0.01 s: the very next packet the gateway sees), or anywhere before the next one
+            nxt = tl_own[i + 1][0] if i + 1 < len(tl_own) else tl_own[i][0] + 5.0
+            tt = tl_own[i][0] + (0.01 + 0.001 * len(tl_for) if rnd.random() < 0.5 else rnd.uniform(0.02, max(0.03, nxt - tl_own[i][0] - 0.01)))
+            tl_for.append((round(tt, 4), fr))
+        # ... and, directed: a neighbour's packet of the same verb and code just before one of ours (nothing in between)
+        by_vc: dict = {}
+        for fr in foreign:
+            by_vc.setdefault((fr[:2], fr[37:41]), []).append(fr)
+        for i, (t_own, fr) in enumerate(tl_own):
+            cands = by_vc.get((fr[:2], fr[37:41]))
+            if cands and rnd.random() < 0.5:
+                lo = tl_own[i - 1][0] if i else 0.0
+                gap = min(t_own - lo, 2.9)
+                if gap > 0.02:
+                    long_ones = [c for c in cands if int(c[42:45]) > 8] or cands      # (arrays first)
+                    tl_for.append((round(t_own - rnd.uniform(0.005, gap - 0.01), 4), rnd.choice(long_ones if rnd.random() < 0.7 else cands)))
+        both = sorted(tl_own + tl_for, key=lambda x: x[0])
+        eav = False     # (eavesdropping *infers* zone sensors from every temperature it hears, a neighbour's included: not scored here)
+        try:
+            va, _ = gwrig.run(lambda loop: neighbour_episode(loop, tl_own, own, eav, schema))
+            vb, _ = gwrig.run(lambda loop: neighbour_episode(loop, both, own, eav, schema))
+        except Exception as e:  # noqa: BLE001
+            chk.violation(f"c13.neighbour.gateway_died:{type(e).__name__}", f"the gateway run itself raised {e!r}", {"op": "neighbour", "own": tl_own, "foreign": tl_for})
+            continue
+        done += 1
+        chk.evaluations += 1
+        chk.nontrivial.add(("nb", tuple(both)))
+        chk.count("neighbour.cases")
+        chk.count("neighbour.views_compared", len(va))
+        diff = sorted(k for k in set(va) | set(vb) if va.get(k) != vb.get(k))
+        if diff:
+            k = diff[0]
+            chk.violation("c13.neighbour.views_differ:" + k.split(".")[-1] + (".eavesdrop" if eav else ""),
+                          f"with a neighbour's traffic ({b}) between the packets of {a}, view {k} of our own system reads {vb.get(k, '<absent>')[:300]} "
+                          f"instead of {va.get(k, '<absent>')[:300]} ({len(diff)} views differ)", {"op": "neighbour", "eavesdrop": eav, "schema": schema, "own": tl_own, "foreign": tl_for, "views": diff[:10]})
+
+
 def model_engine(before: str, ops: list[str]) -> str:
     """Run the Lean model of the engine on the same operation outcomes."""
     return Model().run(["eng.run\t" + before + "\t" + ",".join(ops)])[0]
@@ -240,6 +394,7 @@ def run(chk: Check) -> None:
     thorough = chk.tier == "thorough"
     logs = gwrig.load_logs()
     regex_of = {(str(c), v): sch[v] for c, sch in CODES_SCHEMA.items() for v in (" I", "RQ", "RP", " W") if v in sch}
+    REGEX_OF.update(regex_of)
     pairs = gen.schema_pairs()
     import itertools
 
@@ -330,6 +485,7 @@ def run(chk: Check) -> None:
             meta.append(rep)
             for o in ops:
                 chk.count("op." + (o if not o.startswith("nested") else "nested:k:" + o.split(":")[2]))
+    neighbours(chk, rnd, logs, 600 if thorough else 80)
     outs = Model().run(reqs)
     for r, a, b, m in zip(reqs, impl, outs, meta):
         if a != b:
